@@ -518,7 +518,8 @@ package sftp
 //@   trusted
 //@   results n, err
 //@   ensures 0 <= n && n <= len(b)
-//@   modifies nothing
+//@   ensures ghost.fsWrites == old(ghost.fsWrites) + 1
+//@   modifies ghost.fsWrites
 
 //@ func (*Server).getHandle
 //@   property C07, C11
@@ -564,7 +565,7 @@ package sftp
 //@   ensures err == nil ==> result.Code == sshFxOk
 
 //@ func handlePacket
-//@   property C07, C02
+//@   property C07, C02, C09
 //@   requires serverOK(s) && p.requestPacket != nil && reqType(p.requestPacket) && extOK(p.requestPacket)
 //@   assert before call (*packetManager).readyPacket#1: arg1.orderid == p.orderid
 //@   assert before call (*packetManager).readyPacket#1: arg1.responsePacket != nil
@@ -573,6 +574,8 @@ package sftp
 //@   ensures result == nil
 //@   ensures ghost.ready == old(ghost.ready) + 1
 //@   ensures serverOK(s)
+//@   ensures harmless(p.requestPacket) ==> ghost.fsWrites == old(ghost.fsWrites)
+//@   ensures s.readOnly == old(s.readOnly)
 
 //@ func os.Stat
 //@   trusted
@@ -602,18 +605,24 @@ package sftp
 //@   trusted
 //@   results f, err
 //@   ensures err == nil ==> f != nil
-//@   modifies nothing
+//@   ensures mutatingOpenFlag(flag) ==> ghost.fsWrites == old(ghost.fsWrites) + 1
+//@   ensures !mutatingOpenFlag(flag) ==> ghost.fsWrites == old(ghost.fsWrites)
+//@   modifies ghost.fsWrites
 
 //@ func (*sshFxpOpenPacket).respond
 //@   property C07, C02, C09
 //@   requires serverOK(svr)
+//@   ensures harmlessOpen(p.Pflags) ==> ghost.fsWrites == old(ghost.fsWrites)
+//@   ensures svr.readOnly == old(svr.readOnly)
 //@   ensures result != nil && result.id() == p.ID
 //@   ensures typeis(result, *sshFxpHandlePacket) || typeis(result, *sshFxpStatusPacket)
 //@   ensures serverOK(svr)
 
 //@ func (*sshFxpReaddirPacket).respond
-//@   property C07, C02, C16
+//@   property C07, C02, C16, C09
 //@   requires serverOK(svr)
+//@   ensures ghost.fsWrites == old(ghost.fsWrites)
+//@   ensures svr.readOnly == old(svr.readOnly)
 //@   ensures result != nil && result.id() == p.ID
 //@   ensures typeis(result, *sshFxpNamePacket) || typeis(result, *sshFxpStatusPacket)
 //@   ensures serverOK(svr)
@@ -621,6 +630,7 @@ package sftp
 //@ func (*sshFxpSetstatPacket).respond
 //@   property C07, C02, C17
 //@   requires serverOK(svr)
+//@   ensures svr.readOnly == old(svr.readOnly)
 //@   ensures result != nil && result.id() == p.ID
 //@   ensures typeis(result, *sshFxpStatusPacket)
 //@   ensures serverOK(svr)
@@ -628,6 +638,7 @@ package sftp
 //@ func (*sshFxpFsetstatPacket).respond
 //@   property C07, C02, C17
 //@   requires serverOK(svr)
+//@   ensures svr.readOnly == old(svr.readOnly)
 //@   ensures result != nil && result.id() == p.ID
 //@   ensures typeis(result, *sshFxpStatusPacket)
 //@   ensures serverOK(svr)
@@ -635,6 +646,8 @@ package sftp
 //@ func (*sshFxpExtendedPacket).respond
 //@   property C07, C02, C19
 //@   requires serverOK(svr) && specOK(p)
+//@   ensures harmlessExt(p) ==> ghost.fsWrites == old(ghost.fsWrites)
+//@   ensures svr.readOnly == old(svr.readOnly)
 //@   ensures result != nil && result.id() == p.ID
 //@   ensures typeis(result, *sshFxpStatusPacket) || typeis(result, *StatVFS)
 //@   ensures serverOK(svr)
@@ -669,8 +682,10 @@ package sftp
 //@   modifies nothing
 
 //@ func (*sshFxpExtendedPacketStatVFS).respond
-//@   property C07, C02
+//@   property C07, C02, C09
 //@   requires serverOK(svr)
+//@   ensures ghost.fsWrites == old(ghost.fsWrites)
+//@   ensures svr.readOnly == old(svr.readOnly)
 //@   ensures result != nil && result.id() == p.ID
 //@   ensures typeis(result, *sshFxpStatusPacket) || typeis(result, *StatVFS)
 //@   ensures serverOK(svr)
@@ -678,6 +693,7 @@ package sftp
 //@ func (*sshFxpExtendedPacketPosixRename).respond
 //@   property C07, C02
 //@   requires serverOK(s)
+//@   ensures s.readOnly == old(s.readOnly)
 //@   ensures result != nil && result.id() == p.ID
 //@   ensures typeis(result, *sshFxpStatusPacket)
 //@   ensures serverOK(s)
@@ -685,6 +701,7 @@ package sftp
 //@ func (*sshFxpExtendedPacketHardlink).respond
 //@   property C07, C02
 //@   requires serverOK(s)
+//@   ensures s.readOnly == old(s.readOnly)
 //@   ensures result != nil && result.id() == p.ID
 //@   ensures typeis(result, *sshFxpStatusPacket)
 //@   ensures serverOK(s)
@@ -705,7 +722,12 @@ package sftp
 //@   channel global:type:sftp.orderedRequest invariant m.requestPacket != nil && reqType(m.requestPacket) && extOK(m.requestPacket)
 //@   loop 1 invariant serverOK(svr)
 //@   loop 1 invariant ghost.ready - ghost.taken == old(ghost.ready) - old(ghost.taken)
-//@   loop 1 ghost ready, taken
+//@   loop 1 invariant svr.readOnly == old(svr.readOnly)
+//@   loop 1 invariant svr.readOnly ==> ghost.fsWrites == old(ghost.fsWrites)
+//@   loop 1 ghost ready, taken, fsWrites
+//@   assert before call handlePacket#1: svr.readOnly ==> harmless(pkt.requestPacket)
+//@   assert before call (*packetManager).readyPacket#1: !harmless(pkt.requestPacket)
+//@   ensures old(svr.readOnly) ==> ghost.fsWrites == old(ghost.fsWrites)
 //@   update after recv pktChan#1: ghost.taken = ite(ret1, ghost.taken + 1, ghost.taken)
 //@   deadcode ret2
 //@   ensures result == nil
@@ -747,3 +769,103 @@ package sftp
 //@   assert before call (*packetManager).incomingPacket#2: typeis(pkt.requestPacket, *sshFxpClosePacket) ==> ghost.waited
 //@   assert before send cmdChan#1: ghost.registered && !typeis(pkt.requestPacket, *sshFxpReadPacket) && !typeis(pkt.requestPacket, *sshFxpWritePacket)
 //@   assert before send cmdChan#1: typeis(pkt.requestPacket, *sshFxpClosePacket) ==> ghost.waited
+
+// ---------------------------------------------------------------------------
+// C09: a read-only server never changes the file system
+// ghost.fsWrites counts calls that may create, remove, rename, link, truncate or otherwise modify a file,
+// a directory or an attribute. The classification of the os / file API below is assumed (trusted).
+
+//@ pred mutatingOpenFlag(flag int) = flag & (os.O_WRONLY | os.O_RDWR | os.O_CREATE | os.O_TRUNC | os.O_APPEND) != 0
+//@ pred harmlessOpen(pflags uint32) = pflags & (sshFxfWrite | sshFxfAppend | sshFxfCreat | sshFxfTrunc) == 0
+//@ pred harmlessExt(p *sshFxpExtendedPacket) = p.SpecificPacket == nil || typeis(p.SpecificPacket, *sshFxpExtendedPacketStatVFS)
+//@ pred harmless(p requestPacket) = !typeis(p, *sshFxpWritePacket) && !typeis(p, *sshFxpSetstatPacket) && !typeis(p, *sshFxpFsetstatPacket) && !typeis(p, *sshFxpRemovePacket) && !typeis(p, *sshFxpMkdirPacket) && !typeis(p, *sshFxpRmdirPacket) && !typeis(p, *sshFxpRenamePacket) && !typeis(p, *sshFxpSymlinkPacket) && (typeis(p, *sshFxpOpenPacket) ==> harmlessOpen(p.(*sshFxpOpenPacket).Pflags)) && (typeis(p, *sshFxpExtendedPacket) ==> harmlessExt(p.(*sshFxpExtendedPacket)))
+
+//@ func os.Mkdir
+//@   trusted
+//@   ensures ghost.fsWrites == old(ghost.fsWrites) + 1
+//@   modifies ghost.fsWrites
+
+//@ func os.Remove
+//@   trusted
+//@   ensures ghost.fsWrites == old(ghost.fsWrites) + 1
+//@   modifies ghost.fsWrites
+
+//@ func os.Rename
+//@   trusted
+//@   ensures ghost.fsWrites == old(ghost.fsWrites) + 1
+//@   modifies ghost.fsWrites
+
+//@ func os.Symlink
+//@   trusted
+//@   ensures ghost.fsWrites == old(ghost.fsWrites) + 1
+//@   modifies ghost.fsWrites
+
+//@ func os.Link
+//@   trusted
+//@   ensures ghost.fsWrites == old(ghost.fsWrites) + 1
+//@   modifies ghost.fsWrites
+
+//@ func os.Truncate
+//@   trusted
+//@   ensures ghost.fsWrites == old(ghost.fsWrites) + 1
+//@   modifies ghost.fsWrites
+
+//@ func os.Chmod
+//@   trusted
+//@   ensures ghost.fsWrites == old(ghost.fsWrites) + 1
+//@   modifies ghost.fsWrites
+
+//@ func os.Chown
+//@   trusted
+//@   ensures ghost.fsWrites == old(ghost.fsWrites) + 1
+//@   modifies ghost.fsWrites
+
+//@ func os.Chtimes
+//@   trusted
+//@   ensures ghost.fsWrites == old(ghost.fsWrites) + 1
+//@   modifies ghost.fsWrites
+
+//@ func (file).Truncate
+//@   trusted
+//@   ensures ghost.fsWrites == old(ghost.fsWrites) + 1
+//@   modifies ghost.fsWrites
+
+//@ func (file).Chmod
+//@   trusted
+//@   ensures ghost.fsWrites == old(ghost.fsWrites) + 1
+//@   modifies ghost.fsWrites
+
+//@ func (file).Chown
+//@   trusted
+//@   ensures ghost.fsWrites == old(ghost.fsWrites) + 1
+//@   modifies ghost.fsWrites
+
+//@ func os.Readlink
+//@   trusted
+//@   modifies nothing
+
+//@ func path/filepath.Abs
+//@   trusted
+//@   modifies nothing
+
+//@ func syscall.Statfs
+//@   trusted
+//@   modifies nothing
+
+//@ func (*sshFxpOpenPacket).readonly
+//@   property C09
+//@   ensures result <==> harmlessOpen(p.Pflags)
+//@   modifies nothing
+
+//@ func (*sshFxpExtendedPacket).readonly
+//@   property C09
+//@   requires specOK(p)
+//@   ensures result <==> harmlessExt(p)
+//@   modifies nothing
+
+//@ func (*sshFxpOpenPacket).hasPflags
+//@   property C09
+//@   loop 1 invariant forall(j, 0 <= j && j <= rangeindex ==> p.Pflags & flags[j] != 0)
+//@   ensures len(flags) == 1 ==> (result <==> p.Pflags & flags[0] != 0)
+//@   ensures len(flags) == 2 ==> (result <==> p.Pflags & flags[0] != 0 && p.Pflags & flags[1] != 0)
+//@   modifies nothing
